@@ -31,6 +31,8 @@ def remove_unused_self_cls(source: str) -> str:
             arguments = funcdef.args.posonlyargs + funcdef.args.args
             if not arguments:
                 continue
+            if parsing.is_magic_method(funcdef):
+                continue  # called by the interpreter and by libraries, some pass the instance
             if any(
                 core.match_template(
                     dec,
